@@ -201,6 +201,7 @@ def header_derivation(ck, rule):
     paths = [p for p in explore(ck, fn) if p.outcome == "return"]
     ck.floor(f"{rule} return paths of AlignmentResultRow.create", len(paths), 1)
     rs = V("reverseStrand")
+    n_empty_paths = n_derived = 0
     for pa in paths:
         v = pa.value
         if v[0] != "new" or not v[1].endswith("AlignmentResultRow"):
@@ -213,7 +214,14 @@ def header_derivation(ck, rule):
         # locate P: X such that referenceStart mentions X[0]
         cands = [x[1] for x in T.subterms(args["referenceStartPosition"]) if x[0] == "idx" and x[2] in (C(0), C(-1))]
         if not cands:
+            # the path for a record without pairs (explicit if/else instead of a conditional expression): nothing to derive
+            empties = [k for k, tv in pa.facts.items() if tv is False and k[0] in ("call", "comp")
+                       and any(x[0] == "call" and x[1] == "sorted" for x in T.subterms(k))]
+            if empties:
+                n_empty_paths += 1
+                continue
             raise AnalysisError(f"{where(fn, pa.node)}: referenceStartPosition is not taken from an indexed pair list")
+        n_derived += 1
         P = cands[0]
         base_facts = dict(pa.facts)
         T.add_fact(base_facts, P, True)
@@ -267,6 +275,8 @@ def header_derivation(ck, rule):
             if k in args:
                 ck.judge(args[k] == V(k), rule, f"AlignmentResultRow.create:{k}", where(fn, pa.node),
                          f"{k} is passed through unchanged", found=T.show(args[k])[:100], required=k)
+    if n_derived == 0:
+        raise AnalysisError(f"{fn.where}: no path of AlignmentResultRow.create derives the header from the pair list")
 
 
 # ---------------------------------------------------------------------------------------------------------- C02.4
@@ -349,6 +359,13 @@ def numbering(ck, rule):
         (s0, p0, e0), (s1, p1, e1) = recs
         it = [e for e in pa.events if e.kind == "foriter"]
         iter_term = it[0].term if it else None
+        # enumerate(xs[, start]) / zip(xs, ...) visit xs in order: what counts is the underlying sequence
+        while iter_term is not None and iter_term[0] == "call" and iter_term[1] in ("enumerate", "iter", "list", "tuple") \
+                and iter_term[2]:
+            iter_term = iter_term[2][0]
+        if iter_term is not None and iter_term[0] == "call" and iter_term[1] == "zip" and iter_term[2]:
+            iter_term = iter_term[2][-1] if iter_term[2][0][0] == "call" and iter_term[2][0][1] in ("range", "itertools.count") \
+                else iter_term[2][0]
         if strand:
             want_s0 = T.p_add(T.mk_call("len", [positions]), shift)
             want_step = C(-1)
